@@ -3,6 +3,7 @@
 package main
 
 import (
+	"os"
 	"bytes"
 	"context"
 	"encoding/json"
@@ -158,6 +159,9 @@ func (st *Stack) EnableTrace() *Tracer {
 		t.mu.Lock()
 		defer t.mu.Unlock()
 		t.Stmts++
+		if os.Getenv("VH_DEBUG") == "2" {
+			fmt.Fprintf(os.Stderr, "  sql[%d intx=%v] %.160s\n", t.Stmts, s.InTx(), sql)
+		}
 		if t.failStmt > 0 {
 			t.stmtN++
 			if t.stmtN == t.failStmt {
